@@ -9,7 +9,7 @@ def plan(tier, seed):
     p = Plan()
     p.stubbing = True
     thorough = tier == "thorough"
-    g = 6 if thorough else 2
+    g = 8 if thorough else 4
     pts = CV.grid(g)
     chunk = 96
     txt = CV.PRELUDE + CV.ALIAS + CV.SEGMENTS
